@@ -1793,17 +1793,20 @@ func buildCache(typ reflect.Type, cache map[string][]int, parent []int) {
 			numFields := e.typ.NumField()
 			for i := 0; i < numFields; i++ {
 				field := e.typ.Field(i)
-				if field.PkgPath != "" {
+				embeddedStruct := field.Anonymous && field.Type.Kind() == reflect.Struct
+				if field.PkgPath != "" && !embeddedStruct {
 					// field is unexported, skip
 					continue
 				}
 				index := make([]int, len(e.index)+1)
 				copy(index, e.index)
 				index[len(e.index)] = i
-				if _, shallower := cache[field.Name]; !shallower {
+				// an unexported embedded struct cannot be named itself, but the exported
+				// fields it contains are promoted at their depth like any others
+				if _, shallower := cache[field.Name]; !shallower && field.PkgPath == "" {
 					cache[field.Name] = index
 				}
-				if field.Anonymous && field.Type.Kind() == reflect.Struct {
+				if embeddedStruct {
 					next = append(next, embedded{field.Type, index})
 				}
 			}
